@@ -6,6 +6,7 @@ import (
 	"fmt"
 	pgeneric "github.com/cloudwego/dynamicgo/proto/generic"
 	"reflect"
+	"strconv"
 	"strings"
 	"unsafe"
 
@@ -384,6 +385,75 @@ func overlaps(a, b []byte) bool {
 	return a0 < b0+uintptr(cap(b)) && b0 < a0+uintptr(cap(a))
 }
 
+// inconsistentDefault looks for an integer field whose parsed IDL default differs between its two stored forms (the
+// Thrift bytes and the JSON text are built separately: one of them sitting in memory that was handed on shows here).
+func inconsistentDefault(d *thrift.TypeDescriptor, seen map[*thrift.StructDescriptor]bool) string {
+	if d == nil {
+		return ""
+	}
+	switch d.Type() {
+	case thrift.LIST, thrift.SET:
+		return inconsistentDefault(d.Elem(), seen)
+	case thrift.MAP:
+		if r := inconsistentDefault(d.Key(), seen); r != "" {
+			return r
+		}
+		return inconsistentDefault(d.Elem(), seen)
+	case thrift.STRUCT:
+		st := d.Struct()
+		if st == nil || seen[st] {
+			return ""
+		}
+		seen[st] = true
+		for _, f := range st.Fields() {
+			if dv := f.DefaultValue(); dv != nil {
+				tb := dv.ThriftBinary()
+				var got int64
+				ok := true
+				switch f.Type().Type() {
+				case thrift.BYTE:
+					ok = len(tb) == 1
+					if ok {
+						got = int64(int8(tb[0]))
+					}
+				case thrift.I16:
+					ok = len(tb) == 2
+					if ok {
+						got = int64(int16(uint16(tb[0])<<8 | uint16(tb[1])))
+					}
+				case thrift.I32:
+					ok = len(tb) == 4
+					if ok {
+						got = int64(int32(uint32(tb[0])<<24 | uint32(tb[1])<<16 | uint32(tb[2])<<8 | uint32(tb[3])))
+					}
+				case thrift.I64:
+					ok = len(tb) == 8
+					if ok {
+						var u uint64
+						for i := 0; i < 8; i++ {
+							u = u<<8 | uint64(tb[i])
+						}
+						got = int64(u)
+					}
+				default:
+					continue
+				}
+				want, err := strconv.ParseInt(dv.JSONValue(), 10, 64)
+				if err != nil {
+					continue
+				}
+				if !ok || got != want {
+					return fmt.Sprintf("field %s.%s: thrift form %x, JSON form %s", st.Name(), f.Name(), tb, dv.JSONValue())
+				}
+			}
+			if r := inconsistentDefault(f.Type(), seen); r != "" {
+				return r
+			}
+		}
+	}
+	return ""
+}
+
 func flattenTree(b []byte, ns []generic.PathNode) []byte {
 	for i := range ns {
 		n := &ns[i]
@@ -596,6 +666,8 @@ func runC12(w *W) {
 	so := tgenOpts{MaxStructs: 1 + t.Intn(3, "sch.structs"), MaxFields: 2 + t.Intn(6, "sch.fields"), MaxDepth: 1 + t.Intn(3, "sch.depth"),
 		BigIDs: t.Chance(1, 3, "sch.bigids"), Aliases: t.Chance(1, 3, "sch.alias"), Requiredness: t.Chance(1, 2, "sch.req"), Recursive: t.Chance(1, 4, "sch.rec"), Defaults: t.Chance(1, 3, "sch.defaults")}
 	so.QueryAnno = t.Chance(1, 2, "sch.queryanno")
+	// defaults spelled through constants / enum values: their encoded form lives in the shared descriptor
+	so.ConstDefaults = so.Defaults && t.Chance(1, 2, "sch.constdefaults")
 	// base64 binaries are the precondition of an open native finding (decode past the output buffer's
 	// capacity, a silent heap overflow that makes results depend on what lies behind the buffer): they are
 	// generated in 1/8 of the worlds only, and there every output buffer ends at an unmapped page
@@ -859,6 +931,9 @@ func runC12(w *W) {
 		if sum64(b.B) != inSums[i] {
 			w.Failf("input-modified", nil, "a shared input buffer was modified")
 		}
+	}
+	if bad := inconsistentDefault(sh.desc, map[*thrift.StructDescriptor]bool{}); bad != "" {
+		w.Failf("descriptor-default-corrupt", nil, "the shared descriptor's parsed default is not what its IDL says: %s", bad)
 	}
 	descHash2 := deepHash(sh.desc) ^ deepHash(sh.respDesc)*3
 	if sh.pdesc != nil {
